@@ -11,7 +11,13 @@ Decided:
     substitution.  A helper in another shape is 'idiom not recognised' (exit 2), not a violation.
  S  argument shapes agree: out[i] is the same expression in every shape with the same carry-in presence, carry_out[i]
     likewise; out[i] is D(.) of something (a balanced digit) in every shape.
- L  limb loop (ordered E3 instantiation, all (res_size, a_size) incl. 0, strides, both module types): the primitive is
+ V  vector level, by value (E4): every coefficient stored by vec_znx_normalize_base2k / the big and range variants is the
+    digit of the carry chain over the input limbs, out_i = D(a_i + carry_{i+1}), carry_i = C(a_i + carry_{i+1}), zero beyond
+    the input - compared as linear forms over Q in the atoms in(.) and D(T), the carry eliminated by its definition and
+    digit arguments canonical modulo 2^k, so that the verdict does not depend on the loop organisation (one-step or
+    two-step digit extraction, order, blocking).  Box shapes with N <= 8 incl. tall vectors and three k; N = 2048, 4096
+    (thorough to 65536) with sampled coefficients on both sides of every 1024 boundary.
+ L  (descriptive, no verdict of its own unless V fails) limb loop of today's code, ordered E3 instantiation: the primitive is
     called once per input limb, from the last limb to limb 0; limbs >= res_size are carry-only (out absent); limbs < min
     are written; the carry of each call is the buffer written by the previous call, the first call has no carry-in, the
     last has no carry-out; limbs in [a_size, res_size) are zero-stores; the carry lives in the first N*8 scratch bytes.
@@ -19,6 +25,8 @@ Decided:
     big variant forwards with stride N.
 Not decided: value ranges (|a_i| <= 2^62 keeps the carry sums inside int64), i.e. that D/C are *the* balanced digit and
 carry as integers rather than modulo 2^64 (the idiom is recognised, its arithmetic meaning is the documented one)."""
+from fractions import Fraction as Fr
+
 from .. import ctx
 from .. import regions as RG
 from ..apicheck import ApiBox, shapes_for
@@ -185,7 +193,174 @@ def identity_check(L, R, tier):
     return n
 
 
-def loop_structure(L, R, tier):
+class Chain:
+    """digit/carry chains as linear forms over Q in the atoms in(.) and D(T).
+
+    Values are read as integers (the documented precondition |a_i| <= 2^62 keeps every carry sum inside int64; ranges are
+    not decided here).  The carry is eliminated by its definition C(T) = (T - D(T)) / 2^k, and the argument of a digit is
+    canonical modulo 2^k: an inner digit D(S) with an integer coefficient is replaced by S (D(S) = S mod 2^k), so that the
+    two-step form of the library, D(D(x) + c) with carry C(x) + C(D(x) + c), and the one-step form D(x + c), C(x + c) have
+    the same normal form, whatever the loop organisation (order of limbs per coefficient, blocking, fused passes)."""
+
+    def __init__(self, k):
+        self.k = k
+        self.atoms = {}
+        self.inv = {}
+        self.unrecognised = []
+
+    def atom(self, key):
+        a = self.atoms.get(key)
+        if a is None:
+            a = len(self.atoms)
+            self.atoms[key] = a
+            self.inv[a] = key
+        return a
+
+    @staticmethod
+    def key(p):
+        return tuple(sorted(p.items()))
+
+    def add(self, p, q, s=1):
+        out = dict(p)
+        for m, c in q.items():
+            v = out.get(m, 0) + s * c
+            if v:
+                out[m] = v
+            else:
+                out.pop(m, None)
+        return out
+
+    def canon_mod(self, T):
+        while True:
+            hit = None
+            for m, c in T.items():
+                if len(m) == 1 and Fr(c).denominator == 1 and self.inv[m[0]][0] == 'D':
+                    hit = (m, c)
+                    break
+            if hit is None:
+                return T
+            m, c = hit
+            rest = {mm: cc for mm, cc in T.items() if mm != m}
+            T = self.add(rest, dict(self.inv[m[0]][1]), c)
+
+    def D(self, T):
+        return {(self.atom(('D', self.key(self.canon_mod(T)))),): Fr(1)}
+
+    def C(self, T):
+        d = self.D(T)
+        return {m: c / (1 << self.k) for m, c in self.add(T, d, -1).items()}
+
+    def poly(self, v, memo):
+        if is_int(v):
+            v = v - M64 if v >= (M64 >> 1) else v
+            return {(): Fr(v)} if v else {}
+        if not isinstance(v, Sym):
+            raise ValueError('opaque')
+        r = memo.get(v)
+        if r is not None:
+            return r
+        e = v.e
+        t = is_C(v, self.k)
+        if t is not None:
+            r = self.C(self.poly(t, memo))
+        else:
+            t = is_D(v, self.k)
+            if t is not None:
+                r = self.D(self.poly(t, memo))
+            elif e[0] in ('add', 'sub') and e[1] == 64:
+                r = self.add(self.poly(e[2], memo), self.poly(e[3], memo), 1 if e[0] == 'add' else -1)
+            elif e[0] == 'in':
+                r = {(self.atom(('in', e[1], e[2], e[3])),): Fr(1)}
+            else:
+                if e[0] in ('ashr', 'shl', 'lshr'):
+                    self.unrecognised.append(fmt(v)[:120])
+                raise ValueError('uninterpreted')
+        memo[v] = r
+        return r
+
+
+def digit_chain(L, R, tier):
+    """V: every stored coefficient of the vector normalisations is the digit of the carry chain over the input limbs"""
+    box = ApiBox(L)
+    nruns = ncmp = 0
+    big = [2048, 4096] if tier == 'quick' else [2048, 4096, 16384, 65536]
+    for name in ('vec_znx_normalize_base2k', 'vec_znx_big_normalize_base2k', 'vec_znx_big_range_normalize_base2k'):
+        for mtype in ([FFT64, NTT120] if name == 'vec_znx_normalize_base2k' else [FFT64]):
+            for cpu in (('accel', 'generic') if mtype == FFT64 else ('accel',)):
+                bad = None
+                shapes = [sh for sh in shapes_for(name, tier) if sh['N'] <= 8]
+                # dimensions far above the box (cache-blocking of the limb loop): a few limb counts, sampled coefficients
+                base = [sh for sh in shapes if sh['N'] == 8 and sh.get('log2_base2k') == 19 and
+                        (name.endswith('range_normalize_base2k') or (sh.get('res_size'), sh.get('a_size')) in ((2, 3), (3, 2), (1, 3)))]
+                seen = set()
+                for sh in base:
+                    key = tuple(sorted((k, v) for k, v in sh.items() if k not in ('N', 'res_sl', 'a_sl')))
+                    if key in seen:
+                        continue
+                    seen.add(key)
+                    for N in big:
+                        s2 = dict(sh, N=N)
+                        for kk in ('res_sl', 'a_sl'):
+                            if kk in s2:
+                                s2[kk] = N + (sh[kk] - 8)
+                        shapes.append(s2)
+                for sh in shapes:
+                    N = sh['N']
+                    try:
+                        r = box.instantiate(name, sh, cpu, mtype, expand='values')
+                    except (Unsupported, NeedEnum) as e:
+                        R.broke('%s %s: %s' % (name, sh, e))
+                        continue
+                    nruns += 1
+                    if r.status != 'ok':
+                        bad = bad or (sh, 'call %s' % (r.status,))
+                        continue
+                    res, a = r.bufs['res'], r.bufs['a']
+                    st = final_state(r, ('out',)).get('res', {})
+                    if name.endswith('range_normalize_base2k'):
+                        a_off = [i * a.limb for i in range(sh['a_range_begin'], sh['a_range_xend'], sh['a_range_step'])]
+                    else:
+                        a_off = [i * a.stride for i in range(a.nlimbs)]
+                    asz, rsz = len(a_off), res.nlimbs
+                    k = sh['log2_base2k']
+                    ch = Chain(k)
+                    memo = {}
+                    js = range(N) if N <= 8 else sorted({0, 1, 1023, 1024, 1025, N // 2 - 1, N // 2, N - 1})
+                    for j in js:
+                        T = None
+                        exp = {}
+                        for i in range(asz - 1, -1, -1):
+                            x = {(ch.atom(('in', 'a', a_off[i] + 8 * j, 8)),): Fr(1)}
+                            T = x if T is None else ch.add(x, ch.C(T))
+                            if i < rsz:
+                                exp[i] = ch.D(T)
+                        for i in range(rsz):
+                            e = st.get(i * res.stride + 8 * j)
+                            if e is None or e[0] != 8:
+                                bad = bad or (sh, 'limb %d coefficient %d not written as one word' % (i, j))
+                                continue
+                            ncmp += 1
+                            try:
+                                got = ch.poly(e[1], memo)
+                            except ValueError:
+                                R.broke('%s %s: limb %d coefficient %d holds a value outside the digit/carry algebra: %s' % (
+                                    name, sh, i, j, (ch.unrecognised or [fmt(e[1])[:100]])[0]))
+                                ch.unrecognised = []
+                                continue
+                            if got != exp.get(i, {}):
+                                bad = bad or (sh, 'limb %d coefficient %d = %s is not the digit of the carry chain over input limbs %d..%d' % (
+                                    i, j, fmt(e[1])[:160], i, asz - 1) if i < asz else
+                                    (sh, 'limb %d (beyond the input) coefficient %d = %s, expected 0' % (i, j, fmt(e[1])[:100])))
+                subj = '%s [%s,%s]' % (name, 'fft64' if mtype == FFT64 else 'ntt120', cpu)
+                if bad:
+                    R.ob('limbs-are-the-digits-of-the-carry-chain', subj, 'refuted', detail=bad[1], key='%s:digit-chain' % name,
+                         witness=dict(bad[0], cpu=cpu))
+                else:
+                    R.ob('limbs-are-the-digits-of-the-carry-chain', subj, 'holds', detail='%d shapes (N up to %d)' % (len(shapes), max(big)))
+    return nruns, ncmp
+
+
+def loop_structure(L, R, tier, value_refuted=()):
     box = ApiBox(L)
     nruns = 0
     for name in ('vec_znx_normalize_base2k', 'vec_znx_big_normalize_base2k', 'vec_znx_big_range_normalize_base2k'):
@@ -262,8 +437,14 @@ def loop_structure(L, R, tier):
                         if RG.normalize(rd) != RG.normalize([(o, o + 8 * N) for o in a_off]):
                             bad = bad or (sh, 'input bytes read %s differ from the selected limbs' % RG.normalize(rd)[:3])
                 subj = '%s [%s,%s]' % (name, 'fft64' if mtype == FFT64 else 'ntt120', cpu)
-                if bad:
+                if bad and subj in value_refuted:
                     R.ob('limb-loop-structure', subj, 'refuted', detail=bad[1], key='%s:limb-loop' % name, witness=dict(bad[0], cpu=cpu))
+                elif bad:
+                    # the recorded loop organisation is a description of today's code, not a requirement: another organisation
+                    # that stores the same digits (clause V) is not a violation
+                    R.info.append('%s: loop organisation differs from the recorded one (%s); the stored values are decided by the '
+                                  'digit-chain clause' % (subj, bad[1]))
+                    R.ob('limb-loop-structure', subj, 'holds', detail='organisation differs from the recorded one; values agree')
                 else:
                     R.ob('limb-loop-structure', subj, 'holds', detail='%d shapes' % len(shapes))
     return nruns
@@ -273,8 +454,12 @@ def run(tier):
     R = Report('C05', tier)
     L = ctx.lib()
     n1 = identity_check(L, R, tier)
-    n2 = loop_structure(L, R, tier)
-    R.evaluations = n1 + n2
+    n3, n4 = digit_chain(L, R, tier)
+    vref = {o['subject'] for o in R.obligations if o['rule'] == 'limbs-are-the-digits-of-the-carry-chain' and o['status'] != 'holds'}
+    n2 = loop_structure(L, R, tier, vref)
+    R.floor('value-mode instantiations for the digit-chain clause', n3, 1000)
+    R.floor('stored coefficients compared with the digit of the carry chain', n4, 20000)
+    R.evaluations = n1 + n2 + n3
     R.floor('identity instances (argument shape x k x element)', n1, 90)
     R.floor('limb-loop instantiations', n2, 1000)
     R.rules.append('evaluation = one identity instance or one ordered instantiation of a vector normalisation')
